@@ -45,10 +45,13 @@ def run_check(prop, tree, evdir):
 def main():
     prop = sys.argv[1]
     all_checks = '--all-checks' in sys.argv
-    src = f'/tmp/seed_out/{prop}'
+    # round 2: tools/import_seed.py C06 --round 2   reads /tmp/seed_out/R2C06/ and stores C06-11, C06-12, …
+    rnd = int(sys.argv[sys.argv.index('--round') + 1]) if '--round' in sys.argv else 1
+    src = f'/tmp/seed_out/{prop}' if rnd == 1 else f'/tmp/seed_out/R{rnd}{prop}'
+    offset = 0 if rnd == 1 else 10 * (rnd - 1)
     ns = sorted(int(m.group(1)) for f in os.listdir(src) for m in [re.match(r'change(\d+)\.diff$', f)] if m)
     for n in ns:
-        dst = os.path.join(VERIF, 'seeded', f'{prop}-{n}')
+        dst = os.path.join(VERIF, 'seeded', f'{prop}-{n + offset}')
         os.makedirs(dst, exist_ok=True)
         shutil.copy(f'{src}/change{n}.diff', f'{dst}/patch.diff')
         shutil.copy(f'{src}/demo{n}.py', f'{dst}/demo.py')
@@ -56,7 +59,7 @@ def main():
             meta = json.load(open(f'{src}/meta{n}.json'))
         except Exception:
             meta = {}
-        wt = f'/tmp/confirm_{prop}_{n}'
+        wt = f'/tmp/confirm_{prop}_{n + offset}'
         sh(f'git -C /repo worktree remove --force {wt}')
         r = sh(f'git -C /repo worktree add -q --detach {wt} HEAD')
         assert r.returncode == 0, r.stderr
@@ -72,7 +75,7 @@ def main():
             meta['demo_exit_clean_tree'] = rc0
             meta['demo_output_changed_tree'] = out1[-600:]
             meta['confirmed'] = bool(meta['applies'] and meta['imports'] and rc1 == 1 and rc0 == 0)
-            evdir = f'/tmp/ev_seed_{prop}_{n}'
+            evdir = f'/tmp/ev_seed_{prop}_{n + offset}'
             res = {}
             for p in (PROPS if all_checks else [prop]):
                 rc, rules, keys = run_check(p, wt, evdir)
@@ -89,7 +92,7 @@ def main():
         finally:
             sh(f'git -C /repo worktree remove --force {wt}')
         json.dump(meta, open(f'{dst}/meta.json', 'w'), indent=1, ensure_ascii=False)
-        print(f'{prop}-{n}: confirmed={meta["confirmed"]} demo(changed)={rc1} demo(clean)={rc0} detected={meta["detected"]} '
+        print(f'{prop}-{n + offset}: confirmed={meta["confirmed"]} demo(changed)={rc1} demo(clean)={rc0} detected={meta["detected"]} '
               f'by={ {k: v["rules"] for k, v in res.items()} } :: {meta.get("title", "")[:90]}')
 
 
